@@ -233,6 +233,89 @@ pub fn total_len(items: &[Item]) -> usize {
     body_len(items)
 }
 
+/// Encode with site `target` declaring `declared` bytes (its content stays as
+/// it is) and EVERY enclosing message inflated by the same amount, so that
+/// each field still ends inside its parent and only the real input is short.
+/// Returns `None` if an ancestor's length would not fit in a u64.
+pub fn encode_inflated(items: &[Item], target: usize, declared: u64) -> Option<(Vec<u8>, Site)> {
+    fn go(items: &[Item], out: &mut Vec<u8>, depth: usize, counter: &mut usize, target: usize, declared: u64,
+          found: &mut Option<Site>, delta: &mut Option<u128>, overflow: &mut bool) {
+        for it in items {
+            match it {
+                Item::Varint(f, v) => {
+                    tag(out, *f, 0);
+                    varint(out, *v);
+                }
+                Item::Fixed32(f, b) => {
+                    tag(out, *f, 5);
+                    out.extend_from_slice(b);
+                }
+                Item::Fixed64(f, b) => {
+                    tag(out, *f, 1);
+                    out.extend_from_slice(b);
+                }
+                Item::Group(f, w) => tag(out, *f, *w),
+                Item::Bytes(f, kind, data) => {
+                    let start = out.len();
+                    tag(out, *f, 2);
+                    let idx = *counter;
+                    *counter += 1;
+                    if idx == target {
+                        varint(out, declared);
+                        *found = Some(Site { kind, depth, start, p: out.len(), true_len: data.len(), len: declared });
+                        *delta = Some(declared as u128 - (data.len() as u128).min(declared as u128));
+                    } else {
+                        varint(out, data.len() as u64);
+                    }
+                    out.extend_from_slice(data);
+                }
+                Item::Msg(f, sub) => {
+                    let start = out.len();
+                    tag(out, *f, 2);
+                    let idx = *counter;
+                    *counter += 1;
+                    let mut body = Vec::new();
+                    let mut sub_found = None;
+                    let mut sub_delta = None;
+                    go(sub, &mut body, depth + 1, counter, target, declared, &mut sub_found, &mut sub_delta, overflow);
+                    let len: u128 = if idx == target {
+                        *delta = Some(declared as u128 - (body.len() as u128).min(declared as u128));
+                        declared as u128
+                    } else if let Some(d) = sub_delta {
+                        *delta = Some(d);
+                        body.len() as u128 + d
+                    } else {
+                        body.len() as u128
+                    };
+                    if len > u64::MAX as u128 {
+                        *overflow = true;
+                    }
+                    varint(out, len as u64);
+                    let p = out.len();
+                    if idx == target {
+                        *found = Some(Site { kind: "msg", depth, start, p, true_len: body.len(), len: declared });
+                    } else if let Some(mut s) = sub_found {
+                        s.start += p;
+                        s.p += p;
+                        *found = Some(s);
+                    }
+                    out.extend_from_slice(&body);
+                }
+            }
+        }
+    }
+    let mut out = Vec::new();
+    let mut counter = 0;
+    let mut found = None;
+    let mut delta = None;
+    let mut overflow = false;
+    go(items, &mut out, 0, &mut counter, target, declared, &mut found, &mut delta, &mut overflow);
+    if overflow {
+        return None;
+    }
+    found.map(|s| (out, s))
+}
+
 pub fn hex(b: &[u8]) -> String {
     let mut s = String::with_capacity(b.len() * 2);
     for x in b {
